@@ -19,6 +19,9 @@ type Case struct {
 	G   vkit.GJ `json:"g"`
 	Neg bool    `json:"neg,omitempty"`
 	Nil bool    `json:"nil,omitempty"` // negative case with the nil Geom
+	// Ptr (negative cases): the value handed over is a pointer to a geometry - *geom.Point, *geom.LineString,
+	// *geom.Polygon are geometry types of their own (value-receiver methods), and none of the five; 1-3: non-nil, 4-6: nil
+	Ptr int `json:"ptr,omitempty"`
 }
 
 var five = []string{"Point", "LineString", "MultiLineString", "Polygon", "MultiPolygon"}
@@ -32,6 +35,9 @@ func gen(t *rapid.T) Case {
 		o.Types = []string{"MultiPoint", "GeometryCollection", "Bounds"}
 		o.MaxDepth = 1
 		c.Nil = rapid.IntRange(0, 3).Draw(t, "nilgeom") == 2
+		if !c.Nil && rapid.IntRange(0, 3).Draw(t, "ptrgeom") == 1 {
+			c.Ptr = rapid.IntRange(1, 6).Draw(t, "ptrkind")
+		}
 	}
 	c.G = vkit.GenGJ(t, o)
 	return c
@@ -223,6 +229,24 @@ func run(c Case) (v vkit.Verdict) {
 			g = nil
 			v.Class("negative_nil")
 		}
+		if c.Ptr != 0 {
+			v.Class("negative_pointer_to_a_geometry")
+			pt, ls, pg := geom.Point{X: 1, Y: 2}, geom.LineString{{X: 1, Y: 2}, {X: 3, Y: 4}}, geom.Polygon{{{X: 0, Y: 0}, {X: 1, Y: 0}, {X: 0, Y: 1}}}
+			switch c.Ptr {
+			case 1:
+				g = &pt
+			case 2:
+				g = &ls
+			case 3:
+				g = &pg
+			case 4:
+				g = (*geom.Point)(nil)
+			case 5:
+				g = (*geom.LineString)(nil)
+			default:
+				g = (*geom.Polygon)(nil)
+			}
+		}
 		if p := vkit.Catch(func() { b, err = wkt.Encode(g) }); p != "" {
 			return v.Fail("Encode(%s) panicked: %s", c.G.T, p)
 		}
@@ -271,7 +295,8 @@ func TestProp(t *testing.T) {
 			"(exponent notation, 17 digits, -0, subnormals) and decimals; negative: MultiPoint, GeometryCollection, *Bounds must be rejected with an error. Oracle: an " +
 			"independent recursive-descent parser of the OGC WKT grammar (keyword, balanced parentheses, comma-separated 'x y' pairs, numeric literal syntax checked " +
 			"before strconv.ParseFloat) must accept the text and yield the same type, nesting and float64 values (==). Non-trivial = multi-geometry with >=2 members or " +
-			"polygon with >=2 rings. Distinct by case hash.",
+			"polygon with >=2 rings. Distinct by case hash." +
+			" Round 12: a quarter of the negative cases hand over a pointer to a geometry (*Point, *LineString, *Polygon; nil or not).",
 		Assumptions: []string{"lower-case 'e' exponents are accepted as OGC approximate numeric literals"},
 		Gen:         gen,
 		Run:         run,
